@@ -267,6 +267,16 @@ class FloatLiteral(Literal[float]):
     def __init__(self, token: TokenT, value: float):
         super().__init__(token, value)
 
+    def __str__(self) -> str:
+        if self.value in (float("inf"), float("-inf")):
+            # A literal too big for a float, like `1.0e999`.
+            return "1.0e999" if self.value > 0 else "-1.0e999"
+        mantissa, e, exponent = repr(self.value).partition("e")
+        if e and "." not in mantissa:
+            # `1e+20` would be read back as an integer literal.
+            mantissa += ".0"
+        return f"{mantissa}{e}{exponent}"
+
     def __eq__(self, other: object) -> bool:
         return isinstance(other, FloatLiteral) and self.value == other.value
 
